@@ -292,7 +292,8 @@ fn check_spans(main_text: Option<&str>, main_tree: Option<oq3_syntax::SyntaxNode
 
 fn run_impl(a: &Arrangement, l: &Laid) -> Result<Run, PanicInfo> {
     let search: Option<Vec<PathBuf>> = a.search.as_ref().map(|s| s.iter().map(|d| l.dirs[*d].clone()).collect());
-    let needs_env = a.search.is_none();
+    // the environment variable is also set when a list is given (it must then be ignored)
+    let needs_env = a.search.is_none() || a.env.is_some();
     let main_path = l.root.join("main").join("main.qasm");
     let go = || {
         guarded(|| {
